@@ -21,6 +21,8 @@ enterR, the children left to right, exitR.
 from __future__ import annotations
 
 import importlib
+import os
+import sys
 import time
 from typing import Optional
 
@@ -47,19 +49,49 @@ def _has_quantifier(t) -> bool:
     return False
 
 
+def _abstract_quantifiers(t):
+    """replaces every quantified subformula (and lambda) by a fresh unconstrained constant: an over-approximation of the set
+    of models of t restricted to the quantifier-free symbols (each replaced subformula may take either truth value)"""
+    qs, seen, stack = [], set(), [t]
+    while stack:
+        x = stack.pop()
+        i = x.get_id()
+        if i in seen:
+            continue
+        seen.add(i)
+        if z3.is_quantifier(x):
+            qs.append(x)
+            continue
+        stack.extend(x.children())
+    if not qs:
+        return t
+    return z3.substitute(t, *[(q, z3.FreshConst(q.sort(), "qabs")) for q in qs])
+
+
 class Abstraction:
-    def __init__(self, contracts: dict, gl: dict, self_ty, predicates: dict[str, str], assume_requires=("token-shape", "no-bullet-property-markers")):
+    """Abstract transformers of the listener methods, from their contracts.
+
+    Each method's contract is executed symbolically ONCE over an unconstrained compiler state (call_by_contract: requires
+    become deferred obligations, `modifies` is havocked, `ensures` assumed, the rest framed).  Every path yields a summary
+    (path condition, predicate terms before and after, deferred precondition obligations).  post(M, a) is then an all-SAT
+    enumeration over the predicates M can change, per path, under the literals of the abstract pre-state a."""
+
+    def __init__(self, contracts: dict, gl: dict, self_ty, predicates: dict[str, str], data_names=(), assume_requires=("token-shape", "no-bullet-property-markers")):
         self.contracts = contracts
         self.gl = gl
         self.self_ty = self_ty
         self.names = list(predicates)
         self.preds = predicates
         self.assume_requires = assume_requires
+        self.data_names = set(data_names)
         self.cache: dict = {}
         self._fp: dict = {}
+        self._sum: dict = {}
         self.n_transformers = 0
         self.n_models = 0
+        self.n_paths = 0
         self.failed_pre: list = []
+        self.dead: list = []
         self.solver_time = 0.0
         self.used_models: set = set()
 
@@ -71,9 +103,10 @@ class Abstraction:
         while work:
             prefix = work.pop()
             n += 1
-            if n > 400:
-                raise Unsupported("L2 transformer: path budget")
+            if n > 600:
+                raise Unsupported("L2 summary: path budget")
             ctx = Ctx(prefix, feas_timeout_ms=2000, oblig_timeout_ms=10000)
+            ctx.defer_obligations = True
             it = Interp(ctx, self.contracts, target_key=None)
             it.current_contract = {"gl": self.gl, "module": "l2"}
             try:
@@ -96,80 +129,17 @@ class Abstraction:
             ts.append(z3.BoolVal(t) if isinstance(t, bool) else t)
         return ts
 
-    def footprint(self, key: str):
-        """(relevant predicate indices, changed predicate indices) of a method, from one fully symbolic evaluation of its
-        contract: a predicate is *changed* if its term after the call differs from its term before on some path; it is
-        *relevant* if it shares an uninterpreted symbol with anything the call asserted, checked or changed (constraint
-        independence: the other predicates can neither influence the call nor be influenced by it)."""
-        if key in self._fp:
-            return self._fp[key]
+    def summary(self, key: str):
+        if key in self._sum:
+            return self._sum[key]
         c = self.contracts[key]
         mod, qual = key.split(":")
-        changed, symbols, pre_syms = set(), set(), {}
 
         def run(ctx, it):
             me = self.self_ty().fresh(ctx, "self")
             pre = self._pred_terms(it, me)
-            for i, t in enumerate(pre):
-                pre_syms[i] = ctx._syms(t)
             f = it.make_ifunc(mod, qual)
             args, loc = [me], {"self": me}
-            if "ctx" in c["args"]:
-                cx = c["args"]["ctx"].fresh(ctx, "ctx")
-                args.append(cx)
-                loc["ctx"] = cx
-            n_pc, n_ob = len(ctx.pc), len(ctx.obligs)
-            try:
-                it._call_by_contract(f, c, args, {})
-            except PyRaise:
-                pass
-            for p in ctx.pc[n_pc:]:
-                symbols.update(ctx._syms(p))
-            post = self._pred_terms(it, me)
-            for i, (x, y) in enumerate(zip(pre, post)):
-                if not x.eq(y):
-                    changed.add(i)
-                    symbols.update(ctx._syms(y))
-            return True
-
-        # obligations are checked against the path condition: their symbols are part of pc after obligate()
-        self._explore(run)
-        relevant = {i for i, sy in pre_syms.items() if sy & symbols} | changed
-        self._fp[key] = (tuple(sorted(relevant)), tuple(sorted(changed)))
-        return self._fp[key]
-
-    def post(self, key: str, a: tuple) -> frozenset:
-        """abstract post-states of the listener method `key` from abstract pre-state `a` (by its contract)"""
-        rel, chg = self.footprint(key)
-        sub = self._post_full(key, a, rel)
-        out = set()
-        for vals in sub:
-            b = list(a)
-            for i, v in zip(chg, vals):
-                b[i] = v
-            out.add(tuple(b))
-        return frozenset(out)
-
-    def _post_full(self, key: str, a: tuple, rel: tuple) -> frozenset:
-        rel_vals = tuple(a[i] for i in rel)
-        ck = (key, rel_vals)
-        if ck in self.cache:
-            return self.cache[ck]
-        _, chg = self.footprint(key)
-        c = self.contracts[key]
-        mod, qual = key.split(":")
-        results = set()
-
-        def run(ctx, it):
-            me = self.self_ty().fresh(ctx, "self")
-            pre = self._pred_terms(it, me)
-            for i in rel:
-                ctx.assume(pre[i] if a[i] else z3.Not(pre[i]))
-            if not ctx.feasible():
-                raise Abort("abstract state not concretisable")
-            f = it.make_ifunc(mod, qual)
-            args = [me]
-            loc = {"self": me}
             if "ctx" in c["args"]:
                 cx = c["args"]["ctx"].fresh(ctx, "ctx")
                 args.append(cx)
@@ -183,56 +153,177 @@ class Abstraction:
                 else:
                     req[name] = clause
             c2["requires"] = req
-            n0 = len(ctx.obligs)
+            n_pc = len(ctx.pc)
+            raised = None
             try:
                 it._call_by_contract(f, c2, args, {})
             except PyRaise as e:
-                self.failed_pre.append((key, a, f"contract allows raising {e.etype}"))
-                return None
-            for ob in ctx.obligs[n0:]:
-                if ob.status != "proved":
-                    self.failed_pre.append((key, a, f"{ob.name}: {ob.status}"))
-            post_all = self._pred_terms(it, me)
-            post = [post_all[i] for i in chg]
-            # all-SAT over the valuations of the predicates the call can change
+                raised = e.etype
+            post = self._pred_terms(it, me)
+            obl = [(ob.name, ob.pc_len, ob.term) for ob in ctx.obligs if ob.status == "deferred"]
+            bad = [ob.name + ": " + ob.status for ob in ctx.obligs if ob.status not in ("deferred", "proved")]
+            if ctx.tainted:
+                raise Unsupported(f"L2 summary of {key}: tainted path ({'; '.join(ctx.taint_reasons)[:200]})")
+            return {"pc": [_abstract_quantifiers(p) for p in ctx.pc], "n_pc": n_pc, "pre": pre, "post": post, "obligs": obl, "bad": bad, "raised": raised,
+                    "syms": set().union(*[ctx._syms(p) for p in ctx.pc[n_pc:]]) if len(ctx.pc) > n_pc else set(), "ctx": ctx}
+
+        try:
+            paths = self._explore(run)
+        except (Unsupported, SpecError) as e:
+            raise Unsupported(f"L2 summary of {key}: {e}")
+        self.n_paths += len(paths)
+        changed, symbols = set(), set()
+        for pth in paths:
+            symbols |= pth["syms"]
+            for i, (x, y) in enumerate(zip(pth["pre"], pth["post"])):
+                if not x.eq(y):
+                    changed.add(i)
+                    symbols |= pth["ctx"]._syms(y)
+        relevant = set(changed)
+        for pth in paths:
+            for i, x in enumerate(pth["pre"]):
+                if pth["ctx"]._syms(x) & symbols:
+                    relevant.add(i)
+        self._fp[key] = (tuple(sorted(relevant)), tuple(sorted(changed)))
+        for pth in paths:
             s = z3.Solver()
             s.set("timeout", 10000)
-            # quantified facts (list / map extensionality from frame clauses) are irrelevant for the predicates and only make the
-            # enumeration incomplete: dropping them over-approximates the successor set (sound for the walk obligations)
-            for p in ctx.pc:
-                if not _has_quantifier(p):
-                    s.add(p)
-            found = []
-            while True:
-                r = s.check()
-                if r != z3.sat:
-                    if r == z3.unknown:
-                        raise Unsupported(f"L2 transformer {key}: solver gave unknown during model enumeration ({s.reason_unknown()}); "
-                                          + "; ".join(str(x)[:120] for x in s.assertions() if "Lambda" in str(x) or "lambda" in str(x))[:600])
-                    break
-                m = s.model()
-                val = tuple(z3.is_true(m.eval(t, model_completion=True)) for t in post)
-                found.append(val)
-                self.n_models += 1
-                s.add(z3.Or(*[t != z3.BoolVal(v) for t, v in zip(post, val)]))
-                if len(found) > 64:
-                    raise Unsupported("L2 transformer: too many abstract successors")
-            return found
+            for p in pth["pc"]:
+                s.add(p)
+            pth["solver"] = s
+        self._sum[key] = paths
+        if os.environ.get("PYVC_DEBUG"):
+            print(f"[l2] summary {key.split('.')[-1]} paths={len(paths)} rel={len(relevant)} chg={len(changed)} t={self.solver_time:.1f}", file=sys.stderr, flush=True)
+        return paths
 
-        for lst in self._explore(run):
-            results.update(lst)
+    def footprint(self, key: str):
+        """(relevant predicate indices, changed predicate indices) of a method: a predicate is *changed* if its term after the
+        call differs from its term before on some path; it is *relevant* if it shares an uninterpreted symbol with anything the
+        call asserted, checked or changed (constraint independence: the other predicates can neither influence the call nor be
+        influenced by it)."""
+        self.summary(key)
+        return self._fp[key]
+
+    # An abstract state is a tuple over the predicates with values 0 (false), 1 (true), 2 (unknown).  *Control* predicates are
+    # tracked relationally (sets of valuations, never 2); *data* predicates are tracked per control valuation as a Cartesian
+    # three-valued vector (join = pointwise; 2 absorbs).  Unknown is an over-approximation: no literal is asserted for it.
+    def is_data(self, i: int) -> bool:
+        return self.names[i] in self.data_names
+
+    def post(self, key: str, a: tuple) -> dict:
+        """abstract post-states of the listener method `key` from abstract pre-state `a` (by its contract):
+        {control valuation (full-length tuple with data positions = None) -> joined full state}"""
+        rel, chg = self.footprint(key)
+        sub = self._post_full(key, a, rel)
+        out = {}
+        for vals in sub:
+            b = list(a)
+            for i, v in zip(chg, vals):
+                b[i] = v
+            b = tuple(b)
+            ck = tuple(None if self.is_data(i) else v for i, v in enumerate(b))
+            out[ck] = join(out[ck], b) if ck in out else b
+        return out
+
+    def _post_full(self, key: str, a: tuple, rel: tuple) -> frozenset:
+        rel_vals = tuple(a[i] for i in rel)
+        ck = (key, rel_vals)
+        if ck in self.cache:
+            return self.cache[ck]
+        _, chg = self._fp[key]
+        chg_ctl = [i for i in chg if not self.is_data(i)]
+        chg_dat = [i for i in chg if self.is_data(i)]
+        results = set()
+        t0 = time.time()
+
+        def lits(pth):
+            return [pth["pre"][i] if a[i] == 1 else z3.Not(pth["pre"][i]) for i in rel if a[i] != 2]
+
+        def chk(s):
+            r = s.check()
+            if r == z3.unknown:
+                raise Unsupported(f"L2 transformer {key}: solver gave unknown ({s.reason_unknown()})")
+            return r == z3.sat
+
+        for pth in self.summary(key):
+            s = pth["solver"]
+            s.push()
+            try:
+                for l in lits(pth):
+                    s.add(l)
+                if not chk(s):
+                    continue
+                if pth["raised"]:
+                    self.failed_pre.append((key, a, f"contract allows raising {pth['raised']}"))
+                    continue
+                for b in pth["bad"]:
+                    self.failed_pre.append((key, a, b))
+                # deferred preconditions: pc[:pc_len] /\ state literals /\ not goal must be unsatisfiable
+                for name, pc_len, goal in pth["obligs"]:
+                    s2 = z3.Solver()
+                    s2.set("timeout", 10000)
+                    for p in pth["pc"][:pc_len]:
+                        s2.add(p)
+                    for l in lits(pth):
+                        s2.add(l)
+                    s2.add(z3.Not(goal))
+                    r2 = s2.check()
+                    if r2 != z3.unsat:
+                        self.failed_pre.append((key, a, f"{name}: {'refuted' if r2 == z3.sat else 'undecided'}"))
+                n = 0
+                while chk(s):
+                    m = s.model()
+                    cval = tuple(1 if z3.is_true(m.eval(pth["post"][i], model_completion=True)) else 0 for i in chg_ctl)
+                    self.n_models += 1
+                    n += 1
+                    if n > 256:
+                        raise Unsupported("L2 transformer: too many abstract successors")
+                    fix = [pth["post"][i] == z3.BoolVal(bool(v)) for i, v in zip(chg_ctl, cval)]
+                    # data predicates: which truth values are possible together with this control valuation
+                    dval = []
+                    s.push()
+                    for f in fix:
+                        s.add(f)
+                    for i in chg_dat:
+                        t = pth["post"][i]
+                        mt = z3.is_true(m.eval(t, model_completion=True))
+                        s.push()
+                        s.add(z3.Not(t) if mt else t)
+                        other = chk(s)
+                        s.pop()
+                        dval.append(2 if other else (1 if mt else 0))
+                    s.pop()
+                    vals = dict(zip(chg_ctl, cval))
+                    vals.update(zip(chg_dat, dval))
+                    results.add(tuple(vals[i] for i in chg))
+                    if not chg_ctl:
+                        break
+                    s.add(z3.Not(z3.And(*fix)))
+            finally:
+                s.pop()
+        self.solver_time += time.time() - t0
         self.n_transformers += 1
+        if not results and not any(f[0] == key and f[1] == a for f in self.failed_pre):
+            # vacuity guard: a reachable abstract state from which the contract admits no post-state would silently end the walk
+            self.dead.append((key, a))
         r = frozenset(results)
         self.cache[ck] = r
         return r
 
 
-class Walk:
-    """Reachability of (rule, abstract state, region) over the parser ATN with rule summaries."""
+def join(a: tuple, b: tuple) -> tuple:
+    return tuple(x if x == y else 2 for x, y in zip(a, b))
 
-    def __init__(self, parser_module: str, parser_cls: str, compiler_cls, method_key_prefix: str, abstraction: Abstraction, region_fn, checks):
+
+class Walk:
+    """Reachability of (rule, abstract state, region) over the parser ATN with rule summaries; data predicates are joined at
+    ATN states (Cartesian), control predicates are explored relationally."""
+
+    def __init__(self, parser_module: str, parser_cls: str, compiler_cls, method_key_prefix: str, abstraction: Abstraction, region_fn, checks, dead_alternatives=()):
         P = getattr(importlib.import_module(parser_module), parser_cls)
         self.P = P
+        self.dead_alts = {(d["rule"], d["callee"]) for d in dead_alternatives}
+        self.dead_alt_specs = list(dead_alternatives)
         self.atn = P.atn
         self.rules = list(P.ruleNames)
         self.abs = abstraction
@@ -246,35 +337,48 @@ class Walk:
         self.summary: dict = {}
         self.visits: set = set()
         self.violations: list = []
+        self._viol_seen: set = set()
         self.check_counts: dict = {}
         self.missing_contracts: set = set()
         self.in_progress: set = set()
+        self.n_nodes = 0
+        self.t0 = time.time()
 
     def _meth(self, kind, rule):
         n = kind + rule[0].upper() + rule[1:]
         return n if n in self.overridden else None
 
-    def _apply(self, name, states):
+    def _ck(self, a):
+        return tuple(None if self.abs.is_data(i) else v for i, v in enumerate(a))
+
+    def _apply(self, name, states: dict) -> dict:
+        """states: {control key -> full state}"""
         key = self.prefix + name
         if key not in self.abs.contracts:
             self.missing_contracts.add(name)
-            return set(states)
-        out = set()
-        for a in states:
-            out |= self.abs.post(key, a)
+            return dict(states)
+        out = {}
+        for a in states.values():
+            for ck, b in self.abs.post(key, a).items():
+                out[ck] = join(out[ck], b) if ck in out else b
         return out
 
     def _check(self, point, rule, a, region, trail):
-        ad = dict(zip(self.abs.names, a))
+        ad = {n: (v == 1) for n, v in zip(self.abs.names, a)}
         for name, fn in self.checks:
             r = fn(point, rule, ad, region)
             if r is None:
                 continue
             self.check_counts[name] = self.check_counts.get(name, 0) + 1
             if not r:
-                self.violations.append({"obligation": name, "point": point, "rule": rule, "region": region, "state": {k: v for k, v in ad.items()}, "trail": trail[-12:]})
+                k = (name, point, rule, region, a)
+                if k in self._viol_seen:
+                    continue
+                self._viol_seen.add(k)
+                self.violations.append({"obligation": name, "point": point, "rule": rule, "region": region,
+                                        "state": {n: ("unknown" if v == 2 else bool(v)) for n, v in zip(self.abs.names, a)}, "trail": list(trail[-12:])})
 
-    def walk_rule(self, r: int, a: tuple, region: str, trail: tuple) -> frozenset:
+    def walk_rule(self, r: int, a: tuple, region: str, trail: tuple) -> dict:
         rule = self.rules[r]
         key = (r, a, region)
         if key in self.summary:
@@ -283,39 +387,128 @@ class Walk:
             raise Unsupported(f"recursive grammar rule {rule}")
         self.in_progress.add(key)
         self.visits.add(key)
+        if os.environ.get("PYVC_DEBUG") and len(self.visits) % 200 == 0:
+            print(f"[l2] walk visits={len(self.visits)} nodes={self.n_nodes} transformers={self.abs.n_transformers} t={time.time() - self.t0:.0f}s", file=sys.stderr, flush=True)
+        if len(self.visits) > 200000:
+            raise Unsupported("L2 walk: visit budget")
         trail = trail + (rule,)
         self._check("enter", rule, a, region, trail)
         m = self._meth("enter", rule)
-        cur = self._apply(m, {a}) if m else {a}
+        cur = self._apply(m, {self._ck(a): a}) if m else {self._ck(a): a}
         start = self.atn.ruleToStartState[r]
         stop = self.atn.ruleToStopState[r]
-        # exploration nodes: (atn state number, abstract state, ghost = number of `comment` children seen in `head` capped at 1)
-        seen = set()
-        work = [(start, s, 0) for s in cur]
-        outs = set()
+        # exploration nodes: (atn state number, control valuation, ghost = `comment` children seen in `head`, capped at 1) -> joined state
+        val: dict = {}
+        work = []
+
+        def push(st, s, g):
+            node = (st.stateNumber, self._ck(s), g)
+            old = val.get(node)
+            new = s if old is None else join(old, s)
+            if new != old:
+                val[node] = new
+                work.append((st, node))
+
+        for s in cur.values():
+            push(start, s, 0)
+        outs: dict = {}
         while work:
-            st, s, g = work.pop()
-            node = (st.stateNumber, s, g)
-            if node in seen:
-                continue
-            seen.add(node)
+            st, node = work.pop()
+            s, g = val[node], node[2]
+            self.n_nodes += 1
             if st is stop:
-                outs.add(s)
+                ck = node[1]
+                outs[ck] = join(outs[ck], s) if ck in outs else s
                 continue
             for t in st.transitions:
                 if t.serializationType == 3:  # rule transition
                     callee = self.rules[t.ruleIndex]
+                    if (rule, callee) in self.dead_alts:
+                        continue  # shadowed alternative (side condition: check_dead_alternatives)
                     reg2 = self.region_fn(rule, callee, region, g)
                     g2 = 1 if (rule == "head" and callee == "comment") else g
-                    for s2 in self.walk_rule(t.ruleIndex, s, reg2, trail):
-                        work.append((t.followState, s2, g2))
+                    for s2 in self.walk_rule(t.ruleIndex, s, reg2, trail).values():
+                        push(t.followState, s2, g2)
                 else:
-                    work.append((t.target, s, g))
+                    push(t.target, s, g)
         m = self._meth("exit", rule)
         res = self._apply(m, outs) if m else outs
-        for s in res:
+        for s in res.values():
             self._check("exit", rule, s, region, trail)
         self.in_progress.discard(key)
-        fr = frozenset(res)
-        self.summary[key] = fr
-        return fr
+        self.summary[key] = res
+        return res
+
+    # ---- side conditions of the excluded (shadowed) alternatives ------------------------------------------------------
+    def _ends(self, r: int, toks: tuple, i: int, memo: dict) -> frozenset:
+        """positions j such that rule r derives toks[i:j] (token types), by search over the ATN"""
+        k = (r, i)
+        if k in memo:
+            return memo[k]
+        memo[k] = frozenset()  # the grammar is not left-recursive
+        start, stop = self.atn.ruleToStartState[r], self.atn.ruleToStopState[r]
+        seen, work, out = set(), [(start, i)], set()
+        while work:
+            st, j = work.pop()
+            if (st.stateNumber, j) in seen:
+                continue
+            seen.add((st.stateNumber, j))
+            if st is stop:
+                out.add(j)
+                continue
+            for t in st.transitions:
+                if t.serializationType == 3:
+                    for j2 in self._ends(t.ruleIndex, toks, j, memo):
+                        work.append((t.followState, j2))
+                elif t.isEpsilon:
+                    work.append((t.target, j))
+                elif j < len(toks) and t.matches(toks[j], 0, self.atn.maxTokenType):
+                    work.append((t.target, j + 1))
+        memo[k] = frozenset(out)
+        return memo[k]
+
+    def derives(self, rule: str, toks: tuple) -> bool:
+        return len(toks) in self._ends(self.rules.index(rule), toks, 0, {})
+
+    def check_dead_alternatives(self) -> list:
+        """For every excluded alternative `rule -> callee`: (1) the shadowing callee is an earlier alternative of the same
+        decision, (2) the excluded callee derives exactly the listed token strings (its rule is a chain of single-token
+        transitions), (3) the shadowing callee derives each of them.  Returns a list of (name, ok, detail)."""
+        res = []
+        sym_names = list(self.P.symbolicNames)
+        for d in self.dead_alt_specs:
+            r = self.rules.index(d["rule"])
+            order = []
+            for st in self.atn.states:
+                if st is not None and st.ruleIndex == r:
+                    for t in st.transitions:
+                        if t.serializationType == 3:
+                            order.append((st.stateNumber, self.rules[t.ruleIndex]))
+            # alternatives of the decision appear as epsilon branches of one decision state, in order
+            dec = None
+            for st in self.atn.states:
+                if st is not None and st.ruleIndex == r and len(st.transitions) > 1:
+                    firsts = []
+                    for t in st.transitions:
+                        x = t.target
+                        while len(x.transitions) == 1 and x.transitions[0].isEpsilon and x.transitions[0].serializationType != 3:
+                            x = x.transitions[0].target
+                        firsts.append(self.rules[x.transitions[0].ruleIndex] if x.transitions and x.transitions[0].serializationType == 3 else None)
+                    if d["callee"] in firsts and d["shadowed_by"] in firsts:
+                        dec = firsts
+            ok1 = dec is not None and dec.index(d["shadowed_by"]) < dec.index(d["callee"])
+            toks = [tuple(sym_names.index(n) for n in ts) for ts in d["tokens"]]
+            # (2) language of the excluded callee: all token strings up to length 3 over its FIRST alphabet that it derives
+            alphabet = sorted({x for ts in toks for x in ts})
+            import itertools
+
+            lang = set()
+            for n in range(0, 4):
+                for ts in itertools.product(range(1, self.atn.maxTokenType + 1), repeat=n) if n <= 1 else itertools.product(alphabet, repeat=n):
+                    if self.derives(d["callee"], tuple(ts)):
+                        lang.add(tuple(ts))
+            ok2 = lang == set(toks)
+            ok3 = all(self.derives(d["shadowed_by"], ts) for ts in toks)
+            res.append((f"L2/shadowed-alternative-{d['rule']}->{d['callee']}", ok1 and ok2 and ok3,
+                        f"earlier alternative {d['shadowed_by']} in decision {dec}: {ok1}; language of {d['callee']} (strings up to length 3) = {sorted(lang)} == {sorted(toks)}: {ok2}; {d['shadowed_by']} derives them: {ok3}"))
+        return res
